@@ -34,7 +34,7 @@ TMaxReq == [c \in TClients |-> 1000]
 
 Stimuli == {"send", "answer", "bclose", "cclose", "expire", "wake"}
 Ignored == {"open", "ready", "skip", "end", "noiter", "tick", "rawsend", "sclose", "openfail", "sendfail", "answerauto",
-            "envfault", "envlate", "tinit", "tobs", "rstep", "race", "raceend", "refreshed", "topo"}
+            "envfault", "envlate", "npause", "nresume", "tinit", "tobs", "rstep", "race", "raceend", "refreshed", "topo"}
 Line == TraceLog[l]
 
 TInit == Init /\ l = 1 /\ l0 = 1 /\ ievs = <<>> /\ TLCSet(1, 1)
